@@ -87,6 +87,7 @@ type CItem struct {
 	Value any       // what is put into items/orderedItems: an embedded object or a URL string
 	Time  time.Time // published (zero = none)
 	Err   bool      // reference expects an error item in this position
+	Soft  bool      // with Err: an item that belongs there but must not show Token (its inner part cannot be vouched for) is as good as an error item
 }
 
 type CPage struct {
@@ -96,6 +97,7 @@ type CPage struct {
 	URL    string
 	NoID   bool
 	Anonymous bool // a remote page that states no id of its own
+	Pad       int  // bytes of irrelevant text carried by the page document (a very large document)
 	RefStyle int // how a remote page is referred to: 0 URL string, 1 {"id"}, 2 {"id","type"}, 3 network-path reference, 4 path-absolute reference
 }
 
@@ -121,6 +123,7 @@ type RefItem struct {
 	Token string
 	Time  time.Time
 	Err   bool
+	Soft  bool
 }
 
 func (l *CLayout) Reference(limit int) (seq []RefItem, finite bool) {
@@ -136,7 +139,7 @@ func (l *CLayout) Reference(limit int) (seq []RefItem, finite bool) {
 		}
 		consecutiveEmpty = 0
 		for _, it := range items {
-			seq = append(seq, RefItem{Token: it.Token, Time: it.Time, Err: it.Err})
+			seq = append(seq, RefItem{Token: it.Token, Time: it.Time, Err: it.Err, Soft: it.Soft})
 		}
 		return true
 	}
@@ -250,6 +253,14 @@ func (f *Fedi) DrawLayout(host string, mkItem func(remote bool) CItem) *CLayout 
 			}
 			l.Pages = append(l.Pages, p)
 		}
+		if np > 0 && t.Chance(1, 40) {
+			// one page whose document is larger than a mebibyte (servers put whole threads, long
+			// articles, thousands of ids on a page); it is a page like any other
+			p := l.Pages[t.Draw(np)]
+			p.Remote = true
+			p.Pad = 1<<20 + 1000*t.Draw(300)
+			f.r.S.Probe("page_document_larger_than_a_mebibyte")
+		}
 		if np > 0 {
 			switch t.Weighted(6, 2, 1, 1) {
 			case 1: // cycle
@@ -328,6 +339,9 @@ func (f *Fedi) Install(l *CLayout) {
 	for i := len(l.Pages) - 1; i >= 0; i-- {
 		p := l.Pages[i]
 		d := Doc{"type": kind + "Page", "partOf": l.RootURL}
+		if p.Pad > 0 {
+			d["summary"] = strings.Repeat("lorem ipsum dolor sit amet ", p.Pad/27+1)
+		}
 		if (!p.NoID || p.Remote) && !p.Anonymous {
 			d["id"] = p.URL
 		}
